@@ -31,7 +31,20 @@ pub fn nonterminating(rng: &mut Prng) -> (Module, &'static str) {
     let mut m = Module::default();
     let mut main = vec![set("_", nil())];
     let name: &'static str;
-    match rng.below(9) {
+    match rng.below(11) {
+        9 | 10 => {
+            name = "loop:callback-failure-swallowed-by-host";
+            // the host function survives a callback that fails (here: by running out of budget) and the script goes on:
+            // an exhausted budget stays exhausted
+            let inner = rng.range(30, 400);
+            m.functions.push(("work".into(), func(&["d"], vec![set("_", nil()), repeat(int(inner), None, comp(vec![set("_", read("d"))])), un("ret", read("d"))])));
+            let n = rng.range(3, 60);
+            main.push(set("acc", int(0)));
+            main.push(repeat(int(n), Some("i"), comp(vec![set("_", native("try1", vec![CardBody::Function("work".into()).into(), read("i")])), set("acc", bin("add", read("acc"), int(1)))])));
+            if rng.chance(1, 2) {
+                main.push(bin("while", int(1), comp(vec![set("_", native("try1", vec![CardBody::Function("work".into()).into(), int(1)]))])));
+            }
+        }
         7 | 8 => {
             name = "loop:native-value-called-dynamically";
             // the host function is reached through a native function *value* (CallFunction, not CallNative) and
@@ -226,6 +239,40 @@ impl Engine for BudgetEngine {
                         format!("the program needs {} instructions, budget {n}, but the run ended with {} after {} instructions", if terminates { need.to_string() } else { "unboundedly many".into() }, r.outcome.result, r.dispatched),
                     );
                 }
+            }
+        }
+        // ---- every run gets its own budget, also on a VM whose previous run failed (no clear in between)
+        if case.only_budget.is_none() {
+            let small = 1 + case.extra_budgets.first().copied().unwrap_or(50) % 200;
+            let cfg = VmConfig { max_instr: small, suppress_gc: true, memory_limit: Some(256 << 20), stack_size: None };
+            let mut vm = new_vm(&cfg, &case.inputs);
+            // 1. a run that is cut short (Timeout) or fails for its own reasons
+            let first = vm.run(&program);
+            // 2. the same program again with the full budget: what the reference run gave
+            vm.max_instr = big;
+            let d0 = vm.runtime_data.verif.dispatched;
+            let again = vm.run(&program);
+            let used = vm.runtime_data.verif.dispatched - d0;
+            let out = observe(&vm, &program, &again);
+            if first.is_err() {
+                obs.inc("reruns_after_failed_run");
+                if terminates && reference.outcome.result == "Ok" && out.result.contains("Timeout") {
+                    return Verdict::violation(
+                        "C03:rerun-after-failure:no-budget",
+                        format!("after a run that ended with {:?}, the same program with budget {big} (it needs {need}) ends with Timeout after {used} instructions", first.as_ref().err().map(|e| crate::dval::err_kind(&e.payload))),
+                    );
+                }
+            }
+            // 3. a failed run with a large budget must not lend its leftover to a later run with a small one
+            vm.max_instr = small;
+            let d1 = vm.runtime_data.verif.dispatched;
+            let _ = vm.run(&program);
+            let used3 = vm.runtime_data.verif.dispatched - d1;
+            if used3 > small {
+                return Verdict::violation(
+                    "C03:rerun-after-failure:over-budget",
+                    format!("a run with budget {small} on a VM whose earlier runs ended with {} / {} dispatched {used3} instructions", if first.is_ok() { "Ok" } else { "an error" }, out.result),
+                );
             }
         }
         obs.nontrivial = true;
